@@ -147,11 +147,17 @@ func (x *X) localResolver(fr *Frame, pos token.Pos, extra map[string]types.Type)
 		if scope == nil {
 			return nil
 		}
-		inner := scope.Innermost(pos)
+		at := pos
+		if syn := fn.Syntax(); syn == nil || pos < syn.Pos() || pos > syn.End() {
+			// the position lies in a helper that was inlined into fn: only what
+			// is visible in the whole of fn (parameters, results) can be meant
+			at = token.NoPos
+		}
+		inner := scope.Innermost(at)
 		if inner == nil {
 			inner = scope
 		}
-		_, obj := inner.LookupParent(name, pos)
+		_, obj := inner.LookupParent(name, at)
 		v, ok := obj.(*types.Var)
 		if !ok {
 			return nil
@@ -369,6 +375,18 @@ func (x *X) loopClauses(fr *Frame, li *loopInfo) (invs, decs []*Clause) {
 			}
 			invs = append(invs, cl)
 		}
+	}
+	// a local that the loop only counts upwards, under a guard that bounds it
+	// from above, never drops below the value it had at loop entry
+	for _, name := range upCounters(fr.fn, li) {
+		key := fmt.Sprintf("%s|%d|counter|%s", funcName(fr.fn), li.ordinal, name)
+		cl := autoInvCache[key]
+		if cl == nil {
+			cl = &Clause{Kind: "invariant", Label: "auto-counter-" + name, Loop: li.ordinal,
+				Text: name + " >= loopEntry(" + name + ")", Line: "auto-counter:" + key}
+			autoInvCache[key] = cl
+		}
+		invs = append(invs, cl)
 	}
 	if x.topC == nil {
 		return
@@ -713,6 +731,7 @@ type funcResult struct {
 	Inlined     []string
 	Havoced     []string
 	Errors      []string
+	Stale       []string // clauses of this function's contract that were left out as stale
 	Contract    *Contract
 	Instrs      int
 }
@@ -730,7 +749,9 @@ func verifyFunction(prog *ssa.Program, db *ContractDB, fn *ssa.Function, c *Cont
 		x.props = c.Props
 	}
 	errBefore := len(db.errors)
+	staleBefore := len(db.stale)
 	defer func() {
+		res.Stale = append(res.Stale, db.stale[staleBefore:]...)
 		if r := recover(); r != nil {
 			res.Errors = append(res.Errors, fmt.Sprintf("engine panic in %s: %v", name, r))
 		}
@@ -1097,4 +1118,89 @@ func replaceIdent(s, from, to string) string {
 		i++
 	}
 	return b.String()
+}
+
+// upCounters finds the named integer locals of fn that loop li only ever
+// increases by a positive constant and that the loop guard bounds from above
+// (i < e, i <= e): for these "i >= value at loop entry" is an invariant that
+// needs no annotation.
+func upCounters(fn *ssa.Function, li *loopInfo) []string {
+	var out []string
+	for _, b := range fn.Blocks {
+		for _, in := range b.Instrs {
+			a, ok := in.(*ssa.Alloc)
+			if !ok || a.Heap || a.Comment == "" || strings.HasPrefix(a.Comment, "range") {
+				continue
+			}
+			bt, ok := a.Type().Underlying().(*types.Pointer).Elem().Underlying().(*types.Basic)
+			if !ok || bt.Info()&types.IsInteger == 0 || bt.Info()&types.IsUnsigned != 0 {
+				continue
+			}
+			stores, good := 0, true
+			for lb := range li.body {
+				for _, lin := range lb.Instrs {
+					st, ok := lin.(*ssa.Store)
+					if !ok || st.Addr != ssa.Value(a) {
+						continue
+					}
+					stores++
+					bo, ok := st.Val.(*ssa.BinOp)
+					if !ok || bo.Op != token.ADD {
+						good = false
+						continue
+					}
+					ld, ok1 := bo.X.(*ssa.UnOp)
+					c, ok2 := bo.Y.(*ssa.Const)
+					if !ok1 || !ok2 || ld.Op != token.MUL || ld.X != ssa.Value(a) || c.Value == nil || c.Int64() <= 0 || c.Int64() > 1<<20 {
+						good = false
+					}
+				}
+			}
+			if stores == 0 || !good {
+				continue
+			}
+			// the guard at the loop header: i < e or i <= e on a fresh load of i
+			guarded := false
+			var visit func(v ssa.Value, depth int)
+			visit = func(v ssa.Value, depth int) {
+				if depth > 4 || v == nil {
+					return
+				}
+				if bo, ok := v.(*ssa.BinOp); ok {
+					if bo.Op == token.LSS || bo.Op == token.LEQ {
+						if ld, ok := bo.X.(*ssa.UnOp); ok && ld.Op == token.MUL && ld.X == ssa.Value(a) {
+							guarded = true
+						}
+					}
+					if bo.Op == token.GTR || bo.Op == token.GEQ {
+						if ld, ok := bo.Y.(*ssa.UnOp); ok && ld.Op == token.MUL && ld.X == ssa.Value(a) {
+							guarded = true
+						}
+					}
+				}
+			}
+			for lb := range li.body {
+				if len(lb.Instrs) == 0 {
+					continue
+				}
+				if ifi, ok := lb.Instrs[len(lb.Instrs)-1].(*ssa.If); ok {
+					// only guards one of whose branches leaves the loop
+					leaves := false
+					for _, sc := range lb.Succs {
+						if !li.body[sc] {
+							leaves = true
+						}
+					}
+					if leaves || lb == li.header {
+						visit(ifi.Cond, 0)
+					}
+				}
+			}
+			if guarded {
+				out = append(out, a.Comment)
+			}
+		}
+	}
+	sort.Strings(out)
+	return out
 }
